@@ -374,6 +374,14 @@ def check_deref(node: NodeInfo, a: Analysed, J: Judge) -> None:
     cur = Cursor(flat_items(body))
 
     def field(name: str) -> bool:
+        if FIELD_PREFIX[name] == "0x":
+            # a constant that starts with '-' keeps its sign in front of the optional 0x: '-' (0x)? <rest of the value>
+            # (objdump prints -0x8); this spelling exists only on the path where the value was tested to start with '-'
+            save = cur.i
+            if cur.take_lit("-") and _opt_prefix(cur, "0x") and cur.take(
+                    lambda n: isinstance(n, rx.HoleN) and n.hole.tag in (props[name] + ".[1:]",) and n.hole.base is not None):
+                return True
+            cur.i = save
         return _opt_prefix(cur, FIELD_PREFIX[name]) and cur.take(lambda n: is_hole(n, props[name], node))
 
     ok = cur.take_lit("[") and "main_reg" in props and field("main_reg")
@@ -388,7 +396,7 @@ def check_deref(node: NodeInfo, a: Analysed, J: Judge) -> None:
         ok = cur.take_lit("+") and field("constant_offset")
     ok = bool(ok) and cur.take_lit("]") and cur.take_lit(",") and cur.done()
     J.put("D1.deref-shape", ok, node, f"b={b},c={c},k={k}:{cur.rest()[:30]}",
-          "deref regex is '[' %?a ('+' %?b '*' (0x)?c)? ('+' (0x)?k)? ']' ',' for the present fields, nothing else")
+          "deref regex is '[' %?a ('+' %?b '*' (0x)?c)? ('+' (0x)?k)? ']' ',' for the present fields (a leading '-' of a constant before its (0x)?), nothing else")
 
 
 def check_prop(node: NodeInfo, a: Analysed, J: Judge) -> None:
